@@ -32,10 +32,12 @@ m = {
     "engines": [
         {"name": "coq-model+correspondence", "path": "/verif/coq", "serves_properties": sorted(CHECKS),
          "kind_free_text": "Coq 8.16 development (Spec/ ISO 18004, Generated/ tables regenerated from /repo by tools/rs2v.py on every run, Model/ executable Gallina mirror, Proofs/, Properties/); tie = translator + extensional dump cross-check + correspondence of the extracted model (driver/fqm) with the real crate (harness/fqh) + spec oracles run on the implementation's outputs"},
+        {"name": "fuzz-witness-search", "path": "/verif/fuzz", "serves_properties": ["C01", "C02", "C03", "C04", "C05", "C06", "C07", "C08", "C09", "C10", "C11", "C12", "C15", "C16", "C17", "C18"],
+         "kind_free_text": "auxiliary: libFuzzer differential search between /repo and the pinned reference copy refimpl/ for inputs on which they differ; candidates are decided by the spec oracles of the engine above; skipped when the tree equals the reference; never a verdict, replaces no theorem"},
     ],
     "checks": [CHECKS[p] for p in allp if p in CHECKS],
     "not_applicable": [{"property_id": p, "reason": NA.get(p, "check not built yet in this round (model and theorems in progress); see DESIGN.md section 3")} for p in allp if p not in CHECKS],
-    "notes": "bin/vcheck <ID> quick|thorough [--replay file]; VERIF_SEED seeds the single PRNG; evidence is rewritten on every run. Fixed defects are listed in known_findings.txt.",
+    "notes": "bin/vcheck <ID> quick|thorough [--replay file]; VERIF_SEED seeds the single PRNG; evidence is rewritten on every run. Fixed defects are listed in known_findings.txt. When /repo/src differs from the pinned reference copy (refimpl/), a coverage-guided differential fuzz search (fuzz/, cargo-fuzz on the nightly toolchain, 12 s quick / 120 s thorough, FQ_FUZZ_SECONDS overrides, 0 disables) proposes additional candidate inputs; every candidate is decided by the property's spec oracles, the search itself never produces a verdict (DESIGN.md 2.8).",
 }
 json.dump(m, open(os.path.join(V, "MANIFEST.json"), "w"), indent=1)
 print("MANIFEST: %d checks, %d not_applicable" % (len(m["checks"]), len(m["not_applicable"])))
